@@ -457,3 +457,39 @@ _run_i19 = run
 def run(ctx, rep, tier):
     _run_i19(ctx, rep, tier)
     _malformed_arguments(ctx, rep, tier)
+
+
+# ---------------------------------------------------------------------------------------------------------------- C19.j
+def _output_name_is_an_identifier(ctx, rep, tier):
+    """C19.j (F-97): the output name is interpolated into identifiers, the include guard and the #include of the generated files. A derived name is mapped to an
+    identifier character by character; an explicit one (-o / --output) must be refused unless it already is one."""
+    model = ctx.model
+    rep.rule("C19.j", "an explicit output name is refused unless it is usable as a C identifier (a derived one is mapped to one)")
+    f = model.func(LCF)
+    stores = [n for n in ast.walk(f) if isinstance(n, ast.Assign) and ast.unparse(n.targets[0]) == "program_output_name" and ast.unparse(n.value) == "option_value"]
+    ok = len(stores) == 1
+    if ok:
+        blk = model.parents.get(stores[0])
+        seq = next((getattr(blk, fl) for fl in ("body", "orelse") if isinstance(getattr(blk, fl, None), list) and stores[0] in getattr(blk, fl)), [])
+        guards = [s for s in seq[:seq.index(stores[0])] if isinstance(s, ast.If) and isinstance(s.body[-1], ast.Raise) and raised_class(s.body[-1]) == "RuntimeError"]
+        tests = [ast.unparse(g.test) for g in guards]
+        ident = any(t == "not (option_value.isascii() and option_value.replace('_', 'a').isalnum() and (not option_value[0].isdigit()))" or
+                    re.fullmatch(r"not option_value\.isidentifier\(\)( or not option_value\.isascii\(\))?", t) or
+                    re.fullmatch(r"(not re\.fullmatch|re\.fullmatch)\('\[A-Za-z_\]\[A-Za-z0-9_\]\*', option_value\)( is None)?", t) for t in tests)
+        nonempty = any(t == "not option_value" for t in tests)
+        # the identifier test indexes option_value[0]: the empty value must have been refused before it
+        order = ident and nonempty and tests.index("not option_value") < next(i for i, t in enumerate(tests) if "isalnum" in t or "isidentifier" in t or "fullmatch" in t)
+        ok = bool(ident and order)
+    rep.check(ok, "C19.j", LCF, "-o / --output: empty refused, then anything that is not an ASCII identifier refused, then stored",
+              "the value of -o / --output is stored after refusing only an extension: `-omy-parser` gives `#ifndef MY-PARSER_H` / `struct my-parser_state`, which no C compiler accepts; "
+              "`-osub/x` ends in a FileNotFoundError traceback or in identifiers containing a slash", line=(stores[0].lineno if stores else f.lineno))
+    rep.check(model.has(LCF, "program_output_name = ''.join((x if x in string.ascii_letters or x == '_' or (i > 0 and x in string.digits) else '_' for i, x in enumerate(program_output_name)))"),
+              "C19.j", LCF, "a derived name is mapped to an identifier character by character", "derivation of the output name from the input file name changed")
+
+
+_run_j19 = run
+
+
+def run(ctx, rep, tier):
+    _run_j19(ctx, rep, tier)
+    _output_name_is_an_identifier(ctx, rep, tier)
